@@ -78,6 +78,31 @@ PROPS = {
         'design_ref': 'DESIGN.md 5 C04',
         'explanation': 'BIP143 contract',
     },
+    'C05': {
+        'modules': ['contracts.c05'],
+        'level': 'other',
+        'trusted_base': COMMON_TB,
+        'assumptions': [
+            'OpenSSL signs and verifies; SHA-256 collision freedom (an edit that changes the reference digest is taken to '
+            'invalidate the signature)',
+            'the reference legacy signature hash of specs/sighash.py (written from the consensus algorithm) is the oracle for '
+            '"what the hash type commits to"',
+        ],
+        'level_text': 'Almost entirely BOUNDED, honestly labelled: the statement is end-to-end over OpenSSL signatures and no '
+                      'contract on Python source can decide it; its deductive ingredients are proved under C03/C04 (signature '
+                      'hashes = reference) and C06/C07 (CHECKSIG step, verifier containment). PROVED here: the plumbing of '
+                      '_CheckSig - an empty signature is false, otherwise the LAST byte of the signature is the hash type hashed '
+                      'with the given subscript and index and the remaining bytes are verified against exactly the given public '
+                      'key (OpenSSL calls are assumed contracts). BOUNDED units (OpenSSL, random + catalogue): P2PK, '
+                      'P2PKH, bare m-of-n (n <= 3) and P2SH-wrapped inputs of transactions with 1..4 inputs and 0..4 outputs, '
+                      'signed at every position with 12 hash-type bytes (ALL/NONE/SINGLE x ANYONECANPAY and undefined ones), are '
+                      'accepted by VerifyScript; after each of 17 catalogue edits (every field of this/other inputs and of outputs '
+                      'before/at/after the index, insertion, removal, reordering) the input is accepted exactly when the reference '
+                      'digest of every signature is unchanged; a signature by another key is refused.',
+        'level_note': 'trusted: OpenSSL, reference sighash, SHA-256 collision freedom; only the _CheckSig plumbing is proved here',
+        'design_ref': 'DESIGN.md 5 C05',
+        'explanation': 'bounded sign/verify/edit units',
+    },
     'C06': {
         'modules': ['contracts.c06'],
         'level': 'proof',
@@ -305,6 +330,51 @@ PROPS = {
         'level_note': 'trusted: pyvc, z3/cvc5, assumed MurmurHash3 contract (bounded-checked), specs/bloom.py',
         'design_ref': 'DESIGN.md 5 C20',
         'explanation': 'bloom contracts',
+    },
+    'C13': {
+        'modules': ['contracts.c13'],
+        'level': 'other',
+        'trusted_base': COMMON_TB,
+        'assumptions': [
+            'OpenSSL (libssl via ctypes) performs every curve operation: no contract on Python source reaches it; CKey.__init__ '
+            'is an ASSUMED contract at call sites',
+            'Base58Check text <-> (version, payload) is the C10 layer (proved there)',
+            'the reference curve arithmetic in specs/secp256k1.py is trusted as the oracle of the bounded units',
+        ],
+        'level_text': 'Mostly BOUNDED, honestly labelled: the property is about secp256k1/ECDSA results computed by OpenSSL. '
+                      'PROVED (4 chains, all inputs): the WIF payload of a secret is secret || (01 if compressed) under the '
+                      "selected chain's secret-key version byte, a decoded payload with another version byte raises "
+                      'CBitcoinSecretError, and the key object is built from exactly the first 32 bytes with the compression flag '
+                      '= (a 33rd byte equal to 1). BOUNDED against a pure-Python secp256k1 reference: public key = k*G in the '
+                      'requested encoding and WIF text round trip incl. 1, 2, n-1, n-2, leading-zero secrets, per chain; every '
+                      'signature strictly DER (BIP66), S <= n/2, satisfying the verification equation (digests 0, ff.., >= n); '
+                      'verify == reference verification for valid / other message / other key / r,s in {0, n} / n-s twin / '
+                      'random; is_fullyvalid == SEC1 point decoding for compressed, uncompressed, hybrid, off-curve, x >= p.',
+        'level_note': 'trusted: OpenSSL, the pure-Python reference, C10 layer; only the Python WIF layer is proved',
+        'design_ref': 'DESIGN.md 5 C13',
+        'explanation': 'WIF-layer contracts; bounded ECDSA units',
+    },
+    'C14': {
+        'modules': ['contracts.c14'],
+        'level': 'other',
+        'trusted_base': COMMON_TB,
+        'assumptions': [
+            'OpenSSL performs signing, recovery-id search and public-key recovery: outside any contract on Python source',
+            'str.encode("utf-8") is an uninterpreted strict codec in the proof of BitcoinMessage.__init__',
+            'BytesSerializer contract from C01 (re-verified in this check); SHA-256 uninterpreted',
+            'the pure-Python reference (specs/secp256k1.py) and the reference Base58Check/HASH160 in contracts/c14.py are the '
+            'oracles of the bounded units',
+        ],
+        'level_text': 'Mostly BOUNDED, honestly labelled. PROVED for all messages: BitcoinMessage stores the UTF-8 encodings of '
+                      'text and magic, and its digest is SHA256d(CompactSize-prefixed magic || CompactSize-prefixed message), '
+                      'for every length (incl. > 252 bytes) and on cached calls. BOUNDED (4 chains, OpenSSL): SignMessage '
+                      'yields base64 of 65 bytes with header 27 + recid (+4 compressed); reference recovery from it reproduces '
+                      "the signer's public key; VerifyMessage is true for the signer's P2PKH address (reference-computed and "
+                      "library-computed), false for another key's address, for the same key in the other compression, and for "
+                      'perturbed messages; messages of length 0..1000 incl. non-ASCII; secrets incl. 1, n-1, leading zeros.',
+        'level_note': 'trusted: OpenSSL, pure-Python reference; only the digest/serialisation layer is proved',
+        'design_ref': 'DESIGN.md 5 C14',
+        'explanation': 'digest contracts; bounded sign/verify units',
     },
     'C15': {
         'modules': ['contracts.c15'],
